@@ -83,8 +83,12 @@ def main(argv):
     except AnalysisError as e:
         ctx.error(str(e))
     except Unsupported as e:
+        if os.environ.get("GINVERIF_DEBUG"):
+            traceback.print_exc()
         ctx.error("unmodelled construct: %s" % e)
     except Exception as e:  # a bug in the analyser must never look like a verdict
+        if os.environ.get("GINVERIF_DEBUG"):
+            traceback.print_exc()
         tb = traceback.format_exc().strip().splitlines()
         ctx.error("internal error %s: %s | %s" % (type(e).__name__, e, " / ".join(tb[-6:])))
     for m in list(sys.modules):
